@@ -30,8 +30,7 @@ theorem convStart_byte (s : Int) (h : 0 ≤ s) : convStart s / 8 = s / 8 := by
 /-! ### `expandRange` -/
 
 theorem expandRange_self (n : Int) : expandRange n n = [n] := by
-  have : (n - n + 1).toNat = 1 := by omega
-  simp [expandRange, this, List.range_succ]
+  simp [expandRange, List.range_succ]
 
 theorem expandRange_succ (f t : Int) (h : f ≤ t + 1) :
     expandRange f (t + 1) = expandRange f t ++ [t + 1] := by
@@ -59,8 +58,8 @@ theorem expand_compressFrom (gc : Int) (rest : List Int) :
       expand gc (compressFrom f (g :: rest)) = some (expandRange f g ++ rest) := by
   induction rest with
   | nil =>
-    intro f g _ _ hb
-    have hg : ¬ (g ≥ gc) := by
+    intro f g hfg _ hb
+    have hg : ¬ (f > g ∨ g ≥ gc) := by
       have := hb g (List.mem_cons_self ..); omega
     simp [compressFrom, expand, hg]
   | cons n rest ih =>
@@ -73,7 +72,7 @@ theorem expand_compressFrom (gc : Int) (rest : List Int) :
       subst hn
       rw [expandRange_succ f g (by omega), List.append_assoc]
       rfl
-    · have hg : ¬ (g ≥ gc) := by
+    · have hg : ¬ (f > g ∨ g ≥ gc) := by
         have := hb g (List.mem_cons_self ..); omega
       rw [compressFrom, if_neg hn, expand, if_neg hg, ih n n (Int.le_refl _) hp' hb',
         expandRange_self]
@@ -177,7 +176,7 @@ theorem enum_index_of_at (values : List String) (hn : values.Nodup) (i : Nat) (v
   show j = i
   obtain ⟨hj, ej⟩ := List.getElem?_eq_some_iff.1 h2
   obtain ⟨hi', ei⟩ := List.getElem?_eq_some_iff.1 hi
-  exact (List.Nodup.getElem_inj_iff hn).1 (ej.trans ei.symm)
+  exact (List.getElem_inj hn).1 (ej.trans ei.symm)
 
 /-! ### selector width ↔ group count -/
 
